@@ -554,3 +554,55 @@ def render_v2000(mol: Mol, style: V2Style | None = None, rng: random.Random | No
     if style.final_eol:
         text += style.eol
     return text
+
+
+# --------------------------------------------------------------------------------------------
+# minimal independent reader for PLAIN V3000 files (corpus molfiles) -> abstract molecule
+
+def parse_plain_v3000(text: str):
+    """Own reader for the plain subset (no continuation lines, no star atoms, consecutive ascending indices not required).
+    Returns Mol, or None if the file uses anything beyond the subset (then the harness simply does not use it)."""
+    lines = text.splitlines()
+    if len(lines) < 7 or not lines[3].rstrip().endswith("V3000"):
+        return None
+    body = []
+    for ln in lines[4:]:
+        if ln.startswith("M  END"):
+            break
+        if not ln.startswith("M  V30 ") or ln.rstrip().endswith("-"):
+            return None
+        body.append(ln[7:].split())
+    try:
+        ia, ja = body.index(["BEGIN", "ATOM"]), body.index(["END", "ATOM"])
+    except ValueError:
+        return None
+    atoms, index_of = [], {}
+    for toks in body[ia + 1:ja]:
+        if len(toks) < 6 or toks[1] == "*" or toks[1] not in Z and toks[1] not in ("D", "T"):
+            return None
+        sym, mass = toks[1], 0
+        if sym in ("D", "T"):
+            sym, mass = "H", 2 if toks[1] == "D" else 3
+        a = Atom(sym, 0, 0, mass, float(toks[2]), float(toks[3]), float(toks[4]), len(atoms))
+        for kw in toks[6:]:
+            if kw.startswith("CHG="):
+                a.chg = int(kw[4:])
+            elif kw.startswith("RAD="):
+                a.rad = int(kw[4:])
+            elif kw.startswith("MASS=") and toks[1] not in ("D", "T"):
+                a.mass = int(kw[5:])
+        index_of[int(toks[0])] = len(atoms)
+        atoms.append(a)
+    bonds = []
+    if ["BEGIN", "BOND"] in body:
+        ib, jb = body.index(["BEGIN", "BOND"]), body.index(["END", "BOND"])
+        for toks in body[ib + 1:jb]:
+            if any(t.startswith("ENDPTS") for t in toks):
+                return None
+            i, j = index_of.get(int(toks[2])), index_of.get(int(toks[3]))
+            if i is None or j is None or i == j:
+                return None
+            bonds.append((i, j, int(toks[1])))
+    if len({(min(i, j), max(i, j)) for i, j, _ in bonds}) != len(bonds):
+        return None
+    return Mol(atoms, bonds, "", "M6")
